@@ -14,7 +14,9 @@ Inductive cev :=
 Record sesscase := {
   s_reps : list irep; s_ref : rep; s_loopMS : Z; s_segDurMS : Z; s_cfg : tcfg;
   s_timeline : bool; s_test : bool; s_dur : option Z; s_chunked : bool;
-  s_now : Z; s_initres : list bool; s_events : list cev;
+  s_now : Z; s_initres : list bool;
+  s_cancel_init : option Z;                       (* DELETE while the init PUT of this representation is pending *)
+  s_events : list cev;
   (* observed *)
   o_inits : list Z;                               (* representation indices of the init PUTs in arrival order *)
   o_events : list (list (Z * Z * bool));          (* per event: (rep index, id, lmsg) of the media PUTs in arrival order *)
@@ -111,7 +113,9 @@ Fixpoint upto_crash {A} (rets : list bool) (l : list A) : list A :=
 
 Definition sess_model (s : sesscase) :=
   let cf := scfg_of s in
-  let '(inits, st0) := start cf (s_now s) (s_initres s) in
+  let '(inits, st0) := match s_cancel_init s with
+                       | None => start cf (s_now s) (s_initres s)
+                       | Some k => start_cancelled cf k end in
   let '(per_ev, rets, st1) := run_events cf st0 (map ev_of (s_events s)) in
   (inits, per_ev, rets, st1).
 
@@ -174,5 +178,5 @@ Definition model_view_r (c : c16case) : view :=
   end.
 End Rounding.
 
-Definition mismatches := mismatches_r RCeil false.
-Definition model_view := model_view_r RCeil false.
+Definition mismatches := mismatches_r RCeil true.
+Definition model_view := model_view_r RCeil true.
